@@ -74,6 +74,9 @@ FACTS = [
     ("auditMapType", "linux-ebpf/ebpf_cgroup.c", r"__uint\(type,\s*(BPF_MAP_TYPE_\w+)\);[^{}]*\}\s*audit_map\s+SEC", "str", "BPF_MAP_TYPE_LRU_HASH", ["C06"]),
     ("localMapMaxEntries", "linux-ebpf/ebpf_cgroup.c", r"__uint\(max_entries,\s*(\d+)\);\s*\}\s*local_map\s+SEC", "nat", 200, ["C06"]),
     ("auditMapMaxEntries", "linux-ebpf/ebpf_cgroup.c", r"__uint\(max_entries,\s*(\d+)\);\s*\}\s*audit_map\s+SEC", "nat", 200, ["C06"]),
+    ("skipSigPutUrl", "proxy_agent/src/common/hyper_client.rs", r'method\s*==\s*hyper::Method::PUT\s*&&\s*url\s*==\s*"([^"]*)"', "str", "/vmagentlog", ["C04", "C15"]),
+    ("skipSigPostUrl", "proxy_agent/src/common/hyper_client.rs", r'method\s*==\s*hyper::Method::POST\s*&&\s*url\s*==\s*"([^"]*)"', "str", "/machine/?comp=telemetrydata", ["C04", "C15"]),
+    ("skipSigClauses", ["proxy_agent/src/common/hyper_client.rs"], r'method\s*==\s*hyper::Method::\w+\s*&&\s*url\s*==\s*"', "count", 2, ["C04", "C15"]),
     ("keyDirMode", "proxy_agent/src/acl/linux_acl.rs", r"fs::Permissions::from_mode\(\s*0o([0-7]+)\s*\)", "oct", 0o700, ["C12"]),
     ("keyStructDerivesDebug", ["proxy_agent/src/key_keeper/key.rs"],
      r"#\[derive\([^\]]*Debug[^\]]*\)\]\s*(?:#\[[^\]]*\]\s*)*pub struct Key\s*\{", "count", 0, ["C12"]),
